@@ -249,6 +249,7 @@ func runC17(r *Report) {
 	ruleSyncFailureRollsBack(r)
 	ruleStickyWriteError(r)
 	ruleReplayCountsEveryMutation(r)
+	ruleCloseKeepsAcknowledged(r)
 	// the string flavour's own validation returns the same sentinel
 	if fn := p.Func("simpledb.DB.Put"); fn != nil {
 		key := rd + "/simpledb.DB.Put/same-sentinel"
